@@ -293,7 +293,11 @@ func (w *world) exec(c *taskCtx, op Op) string {
 			m, perr := openflow13.Parse(append([]byte(nil), b...))
 			if perr == nil && op.S&3 == 0 {
 				// what an application does with a decoded message: extend its match (to
-				// reinstall a removed flow, to narrow a flow it was told about)
+				// reinstall a removed flow, to narrow a flow it was told about) - a moment
+				// later, other tasks' operations in between
+				if w.concurrent {
+					simrt.Yield()
+				}
 				extendMatch(m, op.S)
 			}
 			out := fmt.Sprintf("h=%016x pe=%s", hlib.DeepHash(m), errText(perr))
